@@ -1,0 +1,23 @@
+//go:build verif
+
+package ugo
+
+// VerifHook, when set, is called at named synchronisation points of the
+// abort / child-VM protocol (build tag `verif` only). It lets a test harness
+// park a VM goroutine at a point and place Abort / context cancellation there
+// deterministically. vm is the VM the point belongs to (may be nil).
+var VerifHook func(point string, vm *VM)
+
+func verifSync(point string, vm *VM) {
+	if h := VerifHook; h != nil {
+		h(point, vm)
+	}
+}
+
+// VerifRoot returns the root VM of vm's pool (vm itself for a root VM).
+func VerifRoot(vm *VM) *VM {
+	if vm == nil || vm.pool.root == nil {
+		return vm
+	}
+	return vm.pool.root
+}
